@@ -10,8 +10,10 @@ import (
 	"sort"
 	"strings"
 	"testing"
+	"testing/synctest"
 	"time"
 
+	"github.com/ipfs/go-cid"
 	"github.com/ipni/go-libipni/dagsync"
 	"github.com/libp2p/go-libp2p/core/peer"
 
@@ -366,13 +368,49 @@ func entriesVsSegmentedAds(other string) *sched.Scenario {
 	return entriesVsAds("S13-entries-sync+segmented-"+other, other, false, dagsync.SegmentDepthLimit(1))
 }
 
+// ---- S9k: as S9, on a subscriber configured with WithLastKnownSync (the
+// callback knows only the oldest advertisement): advertisement 1 is synced for
+// real first, then the handler is removed. The latest-synced value is what
+// the subscriber itself recorded, so the sync that follows covers
+// advertisement 2 alone.
+func entriesOfHandlerlessPublisherLastKnown(other string) *sched.Scenario {
+	return entriesVsAdsLK("S9k-entries-sync-of-handlerless-publisher-with-last-known-sync+"+other, other, true, true)
+}
+
 func entriesVsAds(name, other string, removeHandler bool, so ...dagsync.Option) *sched.Scenario {
+	return entriesVsAdsLK(name, other, removeHandler, false, so...)
+}
+
+// withLastKnown: the subscriber gets WithLastKnownSync(oldest advertisement)
+// (the callback needs the chain, which exists only inside Setup) and a real
+// sync up to advertisement 1 precedes the explored part.
+func entriesVsAdsLK(name, other string, removeHandler, withLastKnown bool, so ...dagsync.Option) *sched.Scenario {
+	wantAds := 2
+	if withLastKnown {
+		wantAds = 1
+	}
 	return &sched.Scenario{
 		Name: name,
 		Setup: func(e *sched.Exec) ([]sched.Thread, func()) {
+			var oldest cid.Cid
+			if withLastKnown {
+				so = []dagsync.Option{dagsync.WithLastKnownSync(func(peer.ID) (cid.Cid, bool) { return oldest, oldest.Defined() })}
+			}
 			w := schedfx.New(e, schedfx.Options{Pubs: 1, ChainLen: 3, Announce: true, SubOpts: so})
 			p, ch := w.Pubs[0], w.Chains[0]
+			oldest = ch.Cids[0]
 			ech := syncfx.BuildEntryChain(p.Src, 2, syncfx.DefaultProto, "pub0-entries")
+			if withLastKnown {
+				// a real sync up to advertisement 1, free-running, before the
+				// explored part (its hook call and requests are not observed)
+				p.Publisher.SetRoot(ch.Cids[1])
+				if _, err := w.Sub.SyncAdChain(context.Background(), p.AddrInfo()); err != nil {
+					panic(fmt.Sprintf("set-up sync failed: %v", err))
+				}
+				synctest.Wait()
+				w.Lst.Poll()
+				e.Log("set-up sync done")
+			}
 			p.Publisher.SetRoot(ch.Cids[2])
 			if removeHandler {
 				w.Sub.RemoveHandler(p.Ident.ID)
@@ -412,6 +450,9 @@ func entriesVsAds(name, other string, removeHandler bool, so ...dagsync.Option) 
 			for _, l := range e.Obs() {
 				fs := strings.Fields(l)
 				switch {
+				case l == "set-up sync done":
+					// what the set-up sync did is not part of the observation
+					inflight, kinds = "", nil
 				case len(fs) == 3 && fs[0] == "pub0" && fs[1] == "req-begin" && strings.HasPrefix(fs[2], "block"):
 					if inflight != "" {
 						out = append(out, sched.Finding{Sig: name + ":two-requests-in-flight-for-one-publisher", Msg: fmt.Sprintf("request %s begins while %s is in flight", fs[2], inflight)})
@@ -442,8 +483,8 @@ func entriesVsAds(name, other string, removeHandler bool, so ...dagsync.Option) 
 			}
 			// the latest-synced value (block 0, from the set-up) survives the
 			// removal of the handler, so the ad sync covers blocks 2 and 1
-			if len(kinds) != 4 {
-				out = append(out, sched.Finding{Sig: name + ":wrong-number-of-hook-calls", Msg: fmt.Sprintf("%v (want 2 entry chunks and 2 advertisements)", kinds)})
+			if len(kinds) != 2+wantAds {
+				out = append(out, sched.Finding{Sig: name + ":wrong-number-of-hook-calls", Msg: fmt.Sprintf("%v (want 2 entry chunks and %d advertisement(s))", kinds, wantAds)})
 			}
 			if f.latest[0] != 2 {
 				out = append(out, sched.Finding{Sig: name + ":latest-not-last-announced", Msg: fmt.Sprintf("latest synced is block[%d], want block[2]; events %v", f.latest[0], f.events)})
@@ -599,7 +640,7 @@ func scoped() *sched.Scenario {
 
 func TestCheck(t *testing.T) {
 	r := vp.New("C08", "model_checking",
-		"scenarios over the real subscriber built with the instrumentation overlay (gated in-memory publishers, chains of 3-4 signed ads, first ad pre-synced): S1 burst of 3 announcements to one publisher; S2 the same with a failing block request; S3 k publishers x 2 announcements with MaxAsyncConcurrency unset/1/2; S4 announcements plus an explicit sync (queried head) of the same publisher; S12 the same on a subscriber that syncs in segments of one advertisement (SegmentDepthLimit(1)); S13 an entries sync overlapping an announcement / explicit sync of the same publisher on such a subscriber; S5 two explicit syncs of one publisher with different scoped hooks; S8 the burst of S1 under MaxAsyncConcurrency(2), i.e. with free slots; S9 an entries sync of a publisher whose handler was removed overlapping an announcement / an explicit sync of that publisher; S10 an allow filter rejecting one peer, which announces the publisher's new head before / after the publisher does; S11 an announcement after a silence longer than the idle-handler time-to-live (virtual time). All interleavings of harness threads, library goroutines (watcher, per-announcement handler, distributor), publisher requests and hook calls at the scheduling points (every lock, atomic, channel operation, select, spawn, request, hook call, observation) up to the preemption bound. states = distinct decision states; transitions = scheduling steps; traces = executions of the real code.",
+		"scenarios over the real subscriber built with the instrumentation overlay (gated in-memory publishers, chains of 3-4 signed ads, first ad pre-synced): S1 burst of 3 announcements to one publisher; S2 the same with a failing block request; S3 k publishers x 2 announcements with MaxAsyncConcurrency unset/1/2; S4 announcements plus an explicit sync (queried head) of the same publisher; S12 the same on a subscriber that syncs in segments of one advertisement (SegmentDepthLimit(1)); S13 an entries sync overlapping an announcement / explicit sync of the same publisher on such a subscriber; S5 two explicit syncs of one publisher with different scoped hooks; S8 the burst of S1 under MaxAsyncConcurrency(2), i.e. with free slots; S9 an entries sync of a publisher whose handler was removed overlapping an announcement / an explicit sync of that publisher; S9k the same after a real sync on a subscriber configured with WithLastKnownSync (a callback that knows only the oldest advertisement); S10 an allow filter rejecting one peer, which announces the publisher's new head before / after the publisher does; S11 an announcement after a silence longer than the idle-handler time-to-live (virtual time). All interleavings of harness threads, library goroutines (watcher, per-announcement handler, distributor), publisher requests and hook calls at the scheduling points (every lock, atomic, channel operation, select, spawn, request, hook call, observation) up to the preemption bound. states = distinct decision states; transitions = scheduling steps; traces = executions of the real code.",
 		"cooperative scheduling at synchronization operations; select statements try cases in source order; bursts of 3 announcements, at most 3 publishers",
 		"discovery requests are made in a free-running warm-up sync before the explored part",
 	)
@@ -613,7 +654,7 @@ func TestCheck(t *testing.T) {
 	// S8: the burst of S1 under a limit of concurrent announce-triggered syncs
 	// that leaves slots free (one publisher, limit 2): announcements of one
 	// publisher are handled one after the other whatever the limit is
-	scs := []*sched.Scenario{burstOf("S6b-reannounce-synced-head-then-one-new", -1, []int{0, 1}), burstOf("S6-reannounce-synced-head-then-new", -1, []int{0, 1, 2}), multiOf(3, 1, 1, true), burst("S1-burst", -1), burstOf("S8-burst-limit2", -1, []int{1, 2, 3}, dagsync.MaxAsyncConcurrency(2)), multi(2, 0), multi(2, 1), mixed(), mixedSegmented(), entriesVsSegmentedAds("announce"), entriesVsSegmentedAds("explicit"), scoped(), entriesOfHandlerlessPublisher("announce"), entriesOfHandlerlessPublisher("explicit"), rejectedThenAllowed(), announceAfterIdleCleanup(), burst("S2-burst-failing-request", 2)}
+	scs := []*sched.Scenario{burstOf("S6b-reannounce-synced-head-then-one-new", -1, []int{0, 1}), burstOf("S6-reannounce-synced-head-then-new", -1, []int{0, 1, 2}), multiOf(3, 1, 1, true), burst("S1-burst", -1), burstOf("S8-burst-limit2", -1, []int{1, 2, 3}, dagsync.MaxAsyncConcurrency(2)), multi(2, 0), multi(2, 1), mixed(), mixedSegmented(), entriesVsSegmentedAds("announce"), entriesVsSegmentedAds("explicit"), scoped(), entriesOfHandlerlessPublisher("announce"), entriesOfHandlerlessPublisher("explicit"), entriesOfHandlerlessPublisherLastKnown("announce"), rejectedThenAllowed(), announceAfterIdleCleanup(), burst("S2-burst-failing-request", 2)}
 	if thorough {
 		scs = append(scs, multi(2, 2), multi(3, 1), multi(3, 2))
 	}
